@@ -152,6 +152,25 @@ type world struct {
 // c09Leases: the lock of a resource is not taken from its execution (row deleted or owned by another execution, without
 // a release by the holder in the same batch) while the clock is before a lower bound of its lease end
 // (acquire / re-acquire / heartbeat processing time + ttl, each >= the submission clock + ttl)
+// pairsOf renders a string map given as a list of [key, value] pairs (any order) or as an object, sorted by key
+func pairsOf(v any) string {
+	out := []string{}
+	switch x := v.(type) {
+	case []any:
+		for _, e := range x {
+			if p, ok := e.([]any); ok && len(p) == 2 {
+				out = append(out, fmt.Sprintf("%q=%q", p[0], p[1]))
+			}
+		}
+	case map[string]any:
+		for k, e := range x {
+			out = append(out, fmt.Sprintf("%q=%q", k, e))
+		}
+	}
+	sort.Strings(out)
+	return "{" + strings.Join(out, ",") + "}"
+}
+
 func (w *world) c09Leases(counts map[string]int, reqs map[string]M, items []Item, prev, cur map[string]any, now int64) string {
 	rowsOf := func(d map[string]any) map[string]map[string]any {
 		out := map[string]map[string]any{}
@@ -1186,6 +1205,42 @@ func (r *runner) apply(w *world, st Step) (M, bool) {
 					if bad {
 						return M{"what": "property monitor failed on the implementation", "property": "C10", "diff": fmt.Sprintf("schedule %v (cron %v) was created at %d with its first run at %d: the first occurrence after the creation is expected", row["id"], row["cron"], co, nx), "property_violation": true, "step": st}, false
 					}
+					// "the configured parameter and tags": the row stored for a schedule holds what a request that created it in this
+					// batch configured (several creations of one id can be in a batch when deletions are in between: any of them)
+					firstDiff, matched, cands := "", false, 0
+					for _, it := range st.Items {
+						rq := r.reqs[it.Tid]
+						c, _ := rq["c"].(map[string]any)
+						// (the coroutine reads with its even submissions and inserts with its odd ones)
+						if rq["k"] != "CreateSchedule" || c == nil || it.Mode == "before" || it.Seq%2 != 1 || fmt.Sprint(c["id"]) != fmt.Sprint(row["id"]) {
+							continue
+						}
+						cands++
+						pp, _ := c["promiseParam"].(map[string]any)
+						diff := ""
+						for _, f := range [][3]any{{"cron", c["cron"], row["cron"]}, {"promise id template", c["promiseId"], row["promiseId"]}, {"description", c["description"], row["description"]},
+							{"promise timeout", jnum(c["promiseTimeout"]), jnum(row["promiseTimeout"])}, {"promise tags", pairsOf(c["promiseTags"]), pairsOf(row["promiseTags"])},
+							{"tags", pairsOf(c["tags"]), pairsOf(row["tags"])}, {"promise parameter headers", pairsOf(pp["headers"]), pairsOf(row["promiseParamHeaders"])},
+							{"promise parameter data", fmt.Sprint(pp["data"]), fmt.Sprint(row["promiseParamData"])}} {
+							if fmt.Sprint(f[1]) != fmt.Sprint(f[2]) {
+								diff = fmt.Sprintf("schedule %v was stored with %v %v, the request that created it (%s) configured %v", row["id"], f[0], f[2], it.Tid, f[1])
+								break
+							}
+						}
+						if diff == "" {
+							matched = true
+							break
+						}
+						if firstDiff == "" {
+							firstDiff = diff
+						}
+					}
+					if cands > 0 && !matched {
+						return M{"what": "property monitor failed on the implementation", "property": "C10", "diff": firstDiff, "property_violation": true, "step": st}, false
+					}
+					if matched {
+						r.counts["schedule_row_checked"]++
+					}
 				}
 			}
 			if monitors["C19"] || monitors["C08"] {
@@ -2214,39 +2269,85 @@ func (r *runner) converge(w *world, cfg Cfg, now *int64, settle func(int, int64)
 			}
 		}
 		// schedules
+		pool := cfg.CoroutineMaxSize
+		if pool > 5 {
+			pool = 5
+		}
+		if pool < 1 {
+			pool = 1
+		}
+		runEvery := dt * int64((5+pool-1)/pool) // SchedulePromises runs once per signal timeout, every ceil(5/pool)-th cycle when the pool is smaller than the five sweeps
+		evaluable := func(sc map[string]any) bool {
+			return !strings.Contains(strings.ReplaceAll(strings.ReplaceAll(fmt.Sprint(sc["promiseId"]), "{{.id}}", ""), "{{.timestamp}}", ""), "{{")
+		}
+		// a run of SchedulePromises reads the ScheduleBatchSize schedules with the oldest next run time and fires ONE occurrence of
+		// each; a schedule whose id template does not evaluate is logged and skipped, never advanced, so once it is the oldest it
+		// keeps its slot in every batch (F18).  `accrual` = occurrences falling due per run over the schedules a run can fire.
+		accrual, stuck := 0.0, 0
+		for _, y := range list("schedules") {
+			s2 := y.(map[string]any)
+			p2, ok2 := cronPeriod[fmt.Sprint(s2["cron"])]
+			if !ok2 {
+				continue
+			}
+			if !evaluable(s2) {
+				if num(s2["nextRunTime"]) <= t {
+					stuck++
+				}
+				continue
+			}
+			accrual += float64(runEvery) / float64(p2)
+		}
 		for _, x := range list("schedules") {
 			sc := x.(map[string]any)
 			id := fmt.Sprint(sc["id"])
 			p, ok := cronPeriod[fmt.Sprint(sc["cron"])]
-			if !ok || strings.Contains(strings.ReplaceAll(strings.ReplaceAll(fmt.Sprint(sc["promiseId"]), "{{.id}}", ""), "{{.timestamp}}", ""), "{{") {
-				continue // cron outside the model's grid, or an id template that does not evaluate (skipped by design)
+			if !ok {
+				continue // cron outside the model's grid
 			}
 			lagv := t - num(sc["nextRunTime"])
 			if lagv <= p+2*dt {
 				delete(schedLag, id)
 				continue
 			}
-			pool := cfg.CoroutineMaxSize
-			if pool > 5 {
-				pool = 5
+			if !evaluable(sc) {
+				if known["F18"] {
+					r.counts["known:F18"]++
+					continue
+				}
+				return M{"what": "property monitor failed on the implementation", "property": "C11", "finding": "F18",
+					"diff":               fmt.Sprintf("schedule %s (cron %v, promise id template %q) is %d ms behind the clock and is never advanced: its id template does not evaluate, every run of SchedulePromises logs and skips it", id, sc["cron"], sc["promiseId"], lagv),
+					"property_violation": true}, false
 			}
-			if pool < 1 {
-				pool = 1
+			if stuck > 0 && accrual >= float64(cfg.ScheduleBatchSize-stuck) {
+				// F18: the skipped schedules hold `stuck` of the ScheduleBatchSize slots of every run
+				if known["F18"] {
+					r.counts["known:F18"]++
+					continue
+				}
+				return M{"what": "property monitor failed on the implementation", "property": "C11", "finding": "F18",
+					"diff":               fmt.Sprintf("schedule %s (cron %v, period %d ms) is %d ms behind the clock and cannot catch up: %d schedule(s) whose id template does not evaluate are read first by every run of SchedulePromises (batch size %d) and never advanced", id, sc["cron"], p, lagv, stuck, cfg.ScheduleBatchSize),
+					"property_violation": true}, false
 			}
-			if p <= dt*int64((5+pool-1)/pool) {
-				// F16: one occurrence per run of SchedulePromises, runs at least `signal timeout` apart (and only every
-				// ceil(5/pool)-th cycle when the scheduler queue is smaller than the five background coroutines): never catches up
+			if p <= runEvery || accrual >= float64(cfg.ScheduleBatchSize) {
+				// F16: one occurrence per selected schedule per run of SchedulePromises, at most ScheduleBatchSize schedules per run,
+				// runs at least `signal timeout` apart (and only every ceil(5/pool)-th cycle when the scheduler queue is smaller
+				// than the five background coroutines): when occurrences accrue at least that fast the lag never shrinks
 				if known["F16"] {
 					r.counts["known:F16"]++
 					continue
 				}
 				return M{"what": "property monitor failed on the implementation", "property": "C11", "finding": "F16",
-					"diff":               fmt.Sprintf("schedule %s (cron %v, period %d ms, signal timeout %d ms, scheduler queue %d) is %d ms behind the clock and cannot catch up: one occurrence is fired per run of SchedulePromises", id, sc["cron"], p, dt, cfg.CoroutineMaxSize, lagv),
+					"diff":               fmt.Sprintf("schedule %s (cron %v, period %d ms, signal timeout %d ms, scheduler queue %d, schedule batch size %d, %.2f occurrences falling due per run) is %d ms behind the clock and cannot catch up: one occurrence per schedule is fired per run of SchedulePromises", id, sc["cron"], p, dt, cfg.CoroutineMaxSize, cfg.ScheduleBatchSize, accrual, lagv),
 					"property_violation": true}, false
 			}
 			first, ok := schedLag[id]
 			if !ok {
 				schedLag[id] = [2]int64{int64(round), lagv}
+				// the idle phase lasts long enough to give a verdict on this schedule
+				if rounds < round+13 && round+13 <= 90 {
+					rounds = round + 13
+				}
 			} else if int64(round)-first[0] >= 12 && lagv >= first[1] {
 				return viol(fmt.Sprintf("schedule %s (period %d ms) was %d ms behind at cycle %d and is %d ms behind at cycle %d of the idle server: it does not catch up", id, p, first[1], first[0], lagv, round))
 			}
